@@ -66,6 +66,55 @@ pub fn install_panic_hook() {
         } else {
             "<non-string panic>".into()
         };
+        // a panic raised inside std or a dependency: attribute it to the innermost dicom-rs frame
+        let mut loc = loc;
+        let mut msg = msg;
+        if !loc.contains("/verif/") {
+            // call path through dicom-rs, for triage
+            let bt = std::backtrace::Backtrace::force_capture().to_string();
+            let mut path = Vec::new();
+            for line in bt.lines() {
+                let l = line.trim();
+                if let Some(rest) = l.strip_prefix("at /repo/") {
+                    let mut parts = rest.rsplitn(2, ':');
+                    let _ = parts.next();
+                    if let Some(p) = parts.next() {
+                        if path.last() != Some(&p.to_string()) {
+                            path.push(p.to_string());
+                        }
+                    }
+                    if path.len() >= 6 {
+                        break;
+                    }
+                }
+            }
+            if !path.is_empty() {
+                msg = format!("{} [call path: {}]", msg, path.join(" <- "));
+            }
+        }
+        if !loc.contains("/repo/") && !loc.contains("/verif/") {
+            let bt = std::backtrace::Backtrace::force_capture().to_string();
+            let mut via = None;
+            for line in bt.lines() {
+                let l = line.trim();
+                if let Some(rest) = l.strip_prefix("at ") {
+                    if rest.starts_with("/repo/") {
+                        // "at /repo/x/y.rs:LINE:COL"
+                        let mut parts = rest.rsplitn(2, ':');
+                        let _col = parts.next();
+                        via = parts.next().map(|s| s.to_string());
+                        break;
+                    }
+                    if rest.starts_with("/verif/") {
+                        break;
+                    }
+                }
+            }
+            if let Some(v) = via {
+                let short = loc.rsplit("/library/").next().unwrap_or(&loc).to_string();
+                loc = format!("{} (via {})", v, short);
+            }
+        }
         PANIC_LOC.with(|p| *p.borrow_mut() = Some(format!("{}|{}", loc, msg)));
     }));
 }
@@ -89,7 +138,7 @@ pub fn execute(def: &CheckDef, cfg: usize, mut w: Tape, e: Tape, keep_trace: boo
             let info = PANIC_LOC.with(|p| p.borrow_mut().take()).unwrap_or_default();
             let (loc, msg) = info.split_once('|').unwrap_or((&info, ""));
             // harness bugs must not masquerade as violations
-            if loc.contains("/verif/") {
+            if loc.contains("/verif/") || loc.starts_with("dcmsim/") || loc.starts_with("dcmref/") || loc.starts_with("simcore/") {
                 Err(Violation::new(
                     "harness-panic",
                     format!("HARNESS-PANIC@{}", loc),
@@ -153,7 +202,7 @@ pub fn worker(id: &str, seed: u64, start: u64, step: u64, end: u64) -> i32 {
     let verbose = std::env::var("VERIF_VERBOSE").is_ok();
     // wall-clock watchdog (outside the simulation): a run that does not
     // finish within the limit is reported as a hang and the process leaves
-    let limit_s: u64 = std::env::var("VERIF_HANG_S").ok().and_then(|s| s.parse().ok()).unwrap_or(30);
+    let limit_s: u64 = std::env::var("VERIF_HANG_S").ok().and_then(|s| s.parse().ok()).unwrap_or(if def.id == "C05" { 90 } else { 30 });
     std::thread::spawn(move || {
         let mut last = u64::MAX;
         let mut since = Instant::now();
@@ -170,11 +219,16 @@ pub fn worker(id: &str, seed: u64, start: u64, step: u64, end: u64) -> i32 {
             }
         }
     });
+    let curfile = std::env::var("VERIF_CURFILE").ok().and_then(|p| std::fs::OpenOptions::new().create(true).write(true).open(p).ok());
     while run < end {
         if verbose {
             eprintln!("run {}", run);
         }
         CUR_RUN.store(run, std::sync::atomic::Ordering::SeqCst);
+        if let Some(f) = &curfile {
+            use std::os::unix::fs::FileExt;
+            let _ = f.write_at(&run.to_le_bytes(), 0);
+        }
         let keep = run < def.configs.len() as u64 * 2 && samples.len() < 4;
         let o = execute_seeded(&def, seed, run, keep);
         runs += 1;
@@ -207,10 +261,26 @@ pub fn worker(id: &str, seed: u64, start: u64, step: u64, end: u64) -> i32 {
             }
         }
         since_progress += 1;
-        if since_progress >= 512 {
+        if since_progress >= 250 {
             since_progress = 0;
+            // partial results: survive a later abort or hang of this process
+            let mut sigv: Vec<u64> = sigs.drain().collect();
+            sigv.sort();
+            let part = json!({
+                "partial": true, "runs": runs, "steps": steps, "nontrivial": nontrivial, "hash": hash_acc,
+                "faults": faults, "probes": probes, "per_cfg": per_cfg, "sigs": sigv,
+                "violations": viol.values().collect::<Vec<_>>(), "samples": samples,
+            });
+            runs = 0;
+            steps = 0;
+            nontrivial = 0;
+            hash_acc = 0;
+            faults.clear();
+            probes.clear();
+            per_cfg.clear();
+            samples.clear();
             let mut l = out.lock();
-            let _ = writeln!(l, "{}", json!({"progress": run}));
+            let _ = writeln!(l, "{}", part);
             let _ = l.flush();
         }
         run += step;
@@ -236,6 +306,13 @@ pub struct Known {
     pub property: String,
     pub class: String,
     pub what: String,
+}
+
+/// dry mode: checks generate their workload and damage, then return without
+/// running the code under test (used to describe a run that killed its process)
+pub fn dry() -> bool {
+    static D: std::sync::OnceLock<bool> = std::sync::OnceLock::new();
+    *D.get_or_init(|| std::env::var("VERIF_DRY").is_ok())
 }
 
 pub fn verif_root() -> std::path::PathBuf {
@@ -404,6 +481,7 @@ pub struct Totals {
     pub samples: Vec<Value>,
     pub dead_workers: Vec<(u64, Option<u64>, String)>,
     pub hung: Vec<u64>,
+    pub killed: Vec<(u64, String)>,
 }
 
 fn add_map(dst: &mut BTreeMap<String, u64>, v: &Value) {
@@ -432,93 +510,114 @@ pub fn run_workers(def: &CheckDef, seed: u64, total_runs: u64, workers: u64) -> 
         samples: Vec::new(),
         dead_workers: Vec::new(),
         hung: Vec::new(),
+        killed: Vec::new(),
     };
-    let mut kids = Vec::new();
-    for k in 0..workers {
-        let child = Command::new(self_exe())
-            .args([
-                "worker",
-                def.id,
-                &seed.to_string(),
-                &k.to_string(),
-                &workers.to_string(),
-                &total_runs.to_string(),
-            ])
-            .stdout(Stdio::piped())
-            .stderr(Stdio::inherit())
-            .spawn()
-            .expect("spawn worker");
-        kids.push((k, child));
-    }
+    let tmpdir = std::env::temp_dir().join("dcmsim-tmp");
+    let _ = std::fs::create_dir_all(&tmpdir);
     let mut handles = Vec::new();
-    for (k, mut child) in kids {
+    for k in 0..workers {
+        let id = def.id.to_string();
+        let tmpdir = tmpdir.clone();
         handles.push(std::thread::spawn(move || {
-            let so = child.stdout.take().unwrap();
-            let mut last_progress: Option<u64> = None;
-            let mut hang: Option<u64> = None;
-            let mut fin: Option<Value> = None;
-            for line in BufReader::new(so).lines() {
-                let line = match line {
-                    Ok(l) => l,
-                    Err(_) => break,
-                };
-                if let Ok(j) = serde_json::from_str::<Value>(&line) {
-                    if let Some(p) = j["progress"].as_u64() {
-                        last_progress = Some(p);
-                    } else if let Some(h) = j["hang"].as_u64() {
-                        hang = Some(h);
-                    } else if j["done"].as_bool() == Some(true) {
-                        fin = Some(j);
+            // one logical worker = residue class k; its process is restarted after the run that killed it
+            let mut start = k;
+            let mut fins: Vec<Value> = Vec::new();
+            let mut deaths: Vec<(u64, String, bool)> = Vec::new(); // (run, status, hang)
+            let curfile = tmpdir.join(format!("cur-{}-{}", std::process::id(), k));
+            loop {
+                let _ = std::fs::remove_file(&curfile);
+                let mut child = Command::new(self_exe())
+                    .args(["worker", &id, &seed.to_string(), &start.to_string(), &workers.to_string(), &total_runs.to_string()])
+                    .env("VERIF_CURFILE", &curfile)
+                    .stdout(Stdio::piped())
+                    .stderr(Stdio::null())
+                    .spawn()
+                    .expect("spawn worker");
+                let so = child.stdout.take().unwrap();
+                let mut hang: Option<u64> = None;
+                let mut done = false;
+                for line in BufReader::new(so).lines() {
+                    let line = match line {
+                        Ok(l) => l,
+                        Err(_) => break,
+                    };
+                    if let Ok(j) = serde_json::from_str::<Value>(&line) {
+                        if let Some(h) = j["hang"].as_u64() {
+                            hang = Some(h);
+                        } else if j["done"].as_bool() == Some(true) {
+                            done = true;
+                            fins.push(j);
+                        } else if j["partial"].as_bool() == Some(true) {
+                            fins.push(j);
+                        }
+                    }
+                }
+                let status = child.wait();
+                if done {
+                    break;
+                }
+                // abnormal end: which run was executing?
+                let cur = std::fs::read(&curfile).ok().and_then(|b| if b.len() >= 8 { Some(u64::from_le_bytes([b[0], b[1], b[2], b[3], b[4], b[5], b[6], b[7]])) } else { None });
+                let killer = hang.or(cur);
+                match killer {
+                    Some(r) => {
+                        deaths.push((r, format!("{:?}", status), hang.is_some()));
+                        start = r + workers;
+                        if start >= total_runs || deaths.len() >= 400 {
+                            break;
+                        }
+                    }
+                    None => {
+                        deaths.push((u64::MAX, format!("{:?}", status), false));
+                        break;
                     }
                 }
             }
-            let status = child.wait();
-            (k, last_progress, fin, status, hang)
+            let _ = std::fs::remove_file(&curfile);
+            (k, fins, deaths)
         }));
     }
     for h in handles {
-        let (k, last_progress, fin, status, hang) = h.join().expect("join");
-        if let Some(h) = hang {
-            t.hung.push(h);
+        let (k, fins, deaths) = h.join().expect("join");
+        for (run, status, hang) in deaths {
+            if run == u64::MAX {
+                t.dead_workers.push((k, None, status));
+            } else if hang {
+                t.hung.push(run);
+            } else {
+                t.killed.push((run, status));
+            }
         }
-        match fin {
-            Some(j) => {
-                t.runs += j["runs"].as_u64().unwrap_or(0);
-                t.steps += j["steps"].as_u64().unwrap_or(0);
-                t.nontrivial += j["nontrivial"].as_u64().unwrap_or(0);
-                t.hash = t.hash.wrapping_add(j["hash"].as_u64().unwrap_or(0));
-                add_map(&mut t.faults, &j["faults"]);
-                add_map(&mut t.probes, &j["probes"]);
-                add_map(&mut t.per_cfg, &j["per_cfg"]);
-                if let Some(a) = j["sigs"].as_array() {
-                    for s in a {
-                        t.sigs.insert(s.as_u64().unwrap_or(0));
-                    }
+        for j in fins {
+            t.runs += j["runs"].as_u64().unwrap_or(0);
+            t.steps += j["steps"].as_u64().unwrap_or(0);
+            t.nontrivial += j["nontrivial"].as_u64().unwrap_or(0);
+            t.hash = t.hash.wrapping_add(j["hash"].as_u64().unwrap_or(0));
+            add_map(&mut t.faults, &j["faults"]);
+            add_map(&mut t.probes, &j["probes"]);
+            add_map(&mut t.per_cfg, &j["per_cfg"]);
+            if let Some(a) = j["sigs"].as_array() {
+                for s in a {
+                    t.sigs.insert(s.as_u64().unwrap_or(0));
                 }
-                if let Some(a) = j["violations"].as_array() {
-                    for v in a {
-                        let class = v["class"].as_str().unwrap_or("").to_string();
-                        let better = match t.violations.get(&class) {
-                            None => true,
-                            Some(old) => v["run"].as_u64() < old["run"].as_u64(),
-                        };
-                        if better {
-                            t.violations.insert(class, v.clone());
-                        }
-                    }
-                }
-                if let Some(a) = j["samples"].as_array() {
-                    for s in a {
-                        if t.samples.len() < 6 {
-                            t.samples.push(s.clone());
-                        }
+            }
+            if let Some(a) = j["violations"].as_array() {
+                for v in a {
+                    let class = v["class"].as_str().unwrap_or("").to_string();
+                    let better = match t.violations.get(&class) {
+                        None => true,
+                        Some(old) => v["run"].as_u64() < old["run"].as_u64(),
+                    };
+                    if better {
+                        t.violations.insert(class, v.clone());
                     }
                 }
             }
-            None => {
-                if hang.is_none() {
-                    t.dead_workers
-                        .push((k, last_progress, format!("{:?}", status)));
+            if let Some(a) = j["samples"].as_array() {
+                for s in a {
+                    if t.samples.len() < 6 {
+                        t.samples.push(s.clone());
+                    }
                 }
             }
         }
@@ -595,38 +694,71 @@ pub fn check_cmd(id: &str, tier: &str, seed: u64) -> i32 {
     let mut known_lines: Vec<String> = Vec::new();
     let mut viol_docs: Vec<Value> = Vec::new();
 
-    // workers that died: find the killing run, report as abort
-    let dead = std::mem::take(&mut t.dead_workers);
-    for (k, last, status) in dead {
-        let from = last.map(|p| p + 1).unwrap_or(0);
-        match find_killer(&def, seed, k, workers, from, total) {
-            Some((run, st)) => {
-                let o_cfg = cfg_of(&def, run);
-                let class = format!("abort:{}", def.configs[o_cfg]);
-                t.violations.insert(
-                    class.clone(),
-                    json!({"run": run, "cfg": o_cfg, "oracle": "no-abort", "class": class,
-                           "msg": format!("worker process died ({}) executing run {}", st, run),
-                           "abort": true, "seed": seed}),
-                );
-            }
-            None => {
-                println!(
-                    "HARNESS-ERROR worker {} died ({}) and the killing run could not be isolated",
-                    k, status
-                );
-                exit = 2;
+    // runs that killed their worker process (abort, stack overflow)
+    for (run, st) in std::mem::take(&mut t.killed) {
+        let o_cfg = cfg_of(&def, run);
+        // describe the killing run: which damage kinds were applied (dry execution)
+        let mut kinds: Vec<String> = Vec::new();
+        if let Ok(o) = Command::new(self_exe())
+            .args(["worker", def.id, &seed.to_string(), &run.to_string(), "1", &(run + 1).to_string()])
+            .env("VERIF_DRY", "1")
+            .stderr(Stdio::null())
+            .output()
+        {
+            for line in String::from_utf8_lossy(&o.stdout).lines() {
+                if let Ok(j) = serde_json::from_str::<Value>(line) {
+                    if let Some(f) = j["faults"].as_object() {
+                        for k in f.keys() {
+                            if !kinds.contains(k) {
+                                kinds.push(k.clone());
+                            }
+                        }
+                    }
+                }
             }
         }
+        let class = if kinds.iter().any(|k| k == "nesting-bomb") {
+            format!("abort:{}:nesting-bomb", def.configs[o_cfg])
+        } else {
+            format!("abort:{}", def.configs[o_cfg])
+        };
+        let st = format!("{}; damage applied: {:?}", st, kinds);
+        let better = match t.violations.get(&class) {
+            None => true,
+            Some(old) => Some(run) < old["run"].as_u64(),
+        };
+        if better {
+            t.violations.insert(
+                class.clone(),
+                json!({"run": run, "cfg": o_cfg, "oracle": "no-abort", "class": class,
+                       "msg": format!("the worker process died ({}) while executing run {} (abort / stack overflow)", st, run),
+                       "abort": true, "seed": seed}),
+            );
+        }
     }
-
+    for (k, _last, status) in std::mem::take(&mut t.dead_workers) {
+        println!("HARNESS-ERROR worker {} died ({}) and the run that killed it could not be identified", k, status);
+        exit = 2;
+    }
     for run in std::mem::take(&mut t.hung) {
+        // confirm with one solitary re-run (no contention from sibling workers)
+        let t1 = Instant::now();
+        let st = Command::new(self_exe())
+            .args(["worker", def.id, &seed.to_string(), &run.to_string(), "1", &(run + 1).to_string()])
+            .env("VERIF_HANG_S", "60")
+            .stdout(Stdio::null())
+            .stderr(Stdio::null())
+            .status();
+        if matches!(&st, Ok(s) if s.success()) {
+            println!("note: run {} exceeded the watchdog under load but finishes alone in {:.1}s: slow, not a hang", run, t1.elapsed().as_secs_f64());
+            *t.probes.entry("slow-run-not-hang".to_string()).or_insert(0) += 1;
+            continue;
+        }
         let o_cfg = cfg_of(&def, run);
         let class = format!("hang:{}", def.configs[o_cfg]);
         t.violations.entry(class.clone()).or_insert(json!({"run": run, "cfg": o_cfg, "oracle": "no-hang", "class": class,
             "msg": format!("run {} did not finish within the wall-clock watchdog limit (blocked or spinning)", run),
             "abort": true, "seed": seed}));
-        println!("note: runs after {} in that worker's slice were not executed (worker left at the hang)", run);
     }
     let viols: Vec<Value> = t.violations.values().cloned().collect();
     for mut v in viols {
